@@ -143,7 +143,7 @@ def gen_segs(rng, root, allow_wild=False, p_absent=0.3, for_delete=False):
         is_seq = kind in ('list', 'mylist', 'slotlist', 'simlist', 'tuple')
         is_obj = kind in ('obj', 'simobj', 'roprop', 'slotted')
         if allow_wild and not last and not absent and (is_map or is_seq or is_obj) and rng.random() < 0.25:
-            segs.append(['x', None])
+            segs.append(['X' if rng.random() < 0.3 else 'x', None])
             ch = [v for _, v in cur['v']] if (is_map or is_obj) else list(cur['v'])
             cur = rng.choice(ch) if ch else None
             if cur is None:
@@ -191,7 +191,7 @@ def gen_segs(rng, root, allow_wild=False, p_absent=0.3, for_delete=False):
         if nxt is None:
             absent = True
         cur = nxt
-    if segs[-1][0] == 'x':
+    if segs[-1][0] in ('x', 'X'):
         segs.append([_op_for(rng, style, 'map', 'w'), 'w'])
     return segs, style
 
@@ -215,8 +215,8 @@ def _op_for(rng, style, ckind, key):
 def render_path(segs, style):
     """segments -> path recipe for Assign/Delete: ['str', text] | ['Path', parts] | ['T', 'T', ops]"""
     if style == 'str':
-        return ['str', '.'.join('*' if op == 'x' else str(arg) for op, arg in segs)]
-    if style == 'T' and all(op in ('.', '[', 'x') for op, _ in segs):
+        return ['str', '.'.join('*' if op == 'x' else '**' if op == 'X' else str(arg) for op, arg in segs)]
+    if style == 'T' and all(op in ('.', '[', 'x', 'X') for op, _ in segs):
         return ['T', 'T', [[op, arg] for op, arg in segs]]
     parts = []
     run = []
@@ -234,7 +234,7 @@ def render_path(segs, style):
 
 
 def str_path_segs(text):
-    return [['x', None] if s == '*' else ['P', s] for s in text.split('.')]
+    return [['x', None] if s == '*' else ['X', None] if s == '**' else ['P', s] for s in text.split('.')]
 
 
 class Shadow:
